@@ -64,6 +64,12 @@ func (vc *VC) resolvePkg(alias string, env *Env) *types.Package {
 	if p, ok := env.imports[alias]; ok {
 		return vc.p.tpkgs[p]
 	}
+	if p, ok := vc.p.tpkgs[alias]; ok && !strings.Contains(alias, "/") {
+		// standard-library package named by its path (time, net, io, ...)
+		if cur := vc.p.tpkgs[env.pkg]; cur == nil || cur.Scope().Lookup(alias) == nil {
+			return p
+		}
+	}
 	// imported by the spec's package under that name?
 	if cur := vc.p.tpkgs[env.pkg]; cur != nil {
 		for _, imp := range cur.Imports() {
@@ -115,6 +121,17 @@ func (vc *VC) resolveType(te *TypeExpr, pkg string, imports map[string]string, s
 		}
 		o := p.Scope().Lookup(te.Name)
 		if tn, ok := o.(*types.TypeName); ok {
+			if len(te.Args) > 0 {
+				var targs []types.Type
+				for _, a := range te.Args {
+					targs = append(targs, vc.resolveType(a, pkg, imports, false))
+				}
+				inst, err := types.Instantiate(nil, tn.Type(), targs, false)
+				if err != nil {
+					panic(evalError{fmt.Sprintf("instantiating %s: %v", te.String(), err)})
+				}
+				return inst
+			}
 			return tn.Type()
 		}
 		panic(evalError{fmt.Sprintf("unknown type %s.%s", te.Pkg, te.Name)})
@@ -228,6 +245,14 @@ func (vc *VC) eval(e *SExpr, env *Env) *Val {
 	case "index":
 		x := vc.eval(e.Args[0], env)
 		i := vc.eval(e.Args[1], env)
+		if x.IsType && x.TypeV != nil && i.IsType && i.TypeV != nil {
+			// instantiation of a generic type: T[A]
+			inst, err := types.Instantiate(nil, x.TypeV, []types.Type{i.TypeV}, false)
+			if err != nil {
+				vc.evalFail(env, "instantiating %s: %v", e.String(), err)
+			}
+			return &Val{IsType: true, TypeV: inst, Ty: inst}
+		}
 		return vc.indexVal(x, i, env)
 	case "slice":
 		x := vc.eval(e.Args[0], env)
@@ -719,6 +744,11 @@ func (vc *VC) evalCall(e *SExpr, env *Env) *Val {
 			}
 			if x.Loc != nil && x.T == "" {
 				return vc.loadIn(env.st, x.Loc)
+			}
+			if ct, isAt := atomicContent(pt.Elem()); isAt {
+				hn, hs := vc.cellHeap(pt.Elem())
+				return &Val{T: fmt.Sprintf("(select %s %s)", vc.getIn(env.st, hn, hs), x.T), Ty: ct,
+					Loc: &Loc{Kind: RCell, Heap: hn, Base: x.T, RootT: pt.Elem()}}
 			}
 			if _, isStruct := pt.Elem().Underlying().(*types.Struct); isStruct && !vc.isOpaqueStruct(pt.Elem()) {
 				return vc.loadStruct(env.st, x.T, pt.Elem())
